@@ -7,6 +7,7 @@ package claim
 
 import (
 	"context"
+	"k8s.io/apimachinery/pkg/runtime"
 
 	metav1 "k8s.io/apimachinery/pkg/apis/meta/v1"
 	"k8s.io/apimachinery/pkg/types"
@@ -111,4 +112,95 @@ func HarnessC08Claim() {
 		zz.Cover("waiting-foreground")
 	}
 	zz.Observe("released", released, xrGone())
+}
+
+// HarnessC08ClaimLifecycle: a claim from creation to deletion. The first
+// reconcile may read the claim from a cache that lags the API server by one
+// write of another actor (so its own first write of the claim conflicts),
+// another actor may write the claim between any two of its API calls, and it
+// may be cut short by an API failure; the user then deletes the claim; two
+// further reconciles run on a current cache. Whenever the claim's finalizer
+// goes (or the claim with it), every XR that names this claim as its claim
+// has been deleted: none is left behind without anything to delete it.
+//
+//gosym:harness
+//gosym:cover finalizer-removed lagging-read xr-created fault-hit concurrent-write
+func HarnessC08ClaimLifecycle() {
+	s := kube.New()
+	cm := claim.New(claim.WithGroupVersionKind(zzClaimGVK))
+	cm.SetName("cm")
+	cm.SetNamespace("team")
+	cm.SetUID("uid-claim")
+	cm.Object["spec"] = map[string]any{"param": "v"}
+	s.Put(cm)
+
+	c := &zzStale{Store: s}
+	if zz.Bool("cache.lagging") {
+		zz.Cover("lagging-read")
+		old := runtime.DeepCopyJSON(s.Doc("example.org", "Claim", "team", "cm"))
+		old["metadata"].(map[string]any)["resourceVersion"] = "0"
+		c.stale = old
+	}
+	deleting := false
+	xrLive := func() int {
+		n := 0
+		for _, x := range zzXRsOfClaim(s) {
+			md, _ := s.Doc("example.org", "XR", "", x)["metadata"].(map[string]any)
+			if _, gone := md["deletionTimestamp"]; !gone {
+				n++
+			}
+		}
+		return n
+	}
+	released := false
+	s.OnMutate = func() {
+		if !deleting || released {
+			return
+		}
+		after := claim.New(claim.WithGroupVersionKind(zzClaimGVK))
+		if !s.Peek("team", "cm", after) || len(after.GetFinalizers()) == 0 {
+			released = true
+			zz.Cover("finalizer-removed")
+			zz.Assert("claim-released-only-after-every-xr-bound-to-it-was-deleted", xrLive() == 0)
+		}
+	}
+
+	opts := []ReconcilerOption{}
+	if zz.Bool("syncer.ssa") {
+		opts = append(opts, WithCompositeSyncer(NewServerSideCompositeSyncer(c, names.NewNameGenerator(c))))
+	}
+	r := NewReconciler(c, resource.CompositeClaimKind(zzClaimGVK), resource.CompositeKind(zzXRGVK), opts...)
+	req := reconcile.Request{NamespacedName: types.NamespacedName{Namespace: "team", Name: "cm"}}
+
+	s.FaultAt = zz.Choose("fault.at", zz.Bound(8, 10)) - 1
+	s.FaultKind = 1 + zz.Choose("fault.kind", 2)
+	// another actor writes the claim just before the reconcile's k-th call
+	raceAt := zz.Choose("otherWriter.at", zz.Bound(8, 10)) - 1
+	s.BeforeCall = func(n int) {
+		if n == raceAt {
+			zz.Cover("concurrent-write")
+			s.Touch("example.org", "Claim", "team", "cm")
+		}
+	}
+	_, _ = r.Reconcile(context.Background(), req)
+	if s.Faulted {
+		zz.Cover("fault-hit")
+	}
+	s.FaultAt = -1
+	s.BeforeCall = nil
+	c.stale = nil
+	if len(zzXRsOfClaim(s)) > 0 {
+		zz.Cover("xr-created")
+	}
+
+	// the user deletes the claim
+	deleting = true
+	del := claim.New(claim.WithGroupVersionKind(zzClaimGVK))
+	del.SetName("cm")
+	del.SetNamespace("team")
+	_ = s.Delete(context.Background(), del)
+
+	_, _ = r.Reconcile(context.Background(), req)
+	_, _ = r.Reconcile(context.Background(), req)
+	zz.Observe("end", released, xrLive())
 }
